@@ -71,9 +71,12 @@ def default_execute(scn, ctx, timeout=10.0, digests=False):
     obs = {}
     for run in scn["runs"]:
         argv = [subst(a, w) for a in run["argv"]]
-        r = lib.run_fselect(argv, cwd, w.home, tz=env.get("tz", "UTC"), fake_epoch=(env.get("fake_epoch") if (env.get("fake_epoch") or -1) >= 0 else None),
-                            fail_after=run.get("fail_after"), uid=env.get("uid"),
-                            timeout=run.get("timeout", timeout))
+        kw = dict(tz=env.get("tz", "UTC"), fake_epoch=(env.get("fake_epoch") if (env.get("fake_epoch") or -1) >= 0 else None),
+                  fail_after=run.get("fail_after"), uid=env.get("uid"))
+        r = lib.run_fselect(argv, cwd, w.home, timeout=run.get("timeout", timeout), **kw)
+        if r["timed_out"]:
+            # a busy machine must not look like a hang: one more try, alone in this worker, with three times the bound
+            r = lib.run_fselect(argv, cwd, w.home, timeout=3 * run.get("timeout", timeout), **kw)
         o = {"status": r["status"], "timed_out": r["timed_out"], "panic": r["panic"],
              "stderr": r["stderr"][:2000], "stderr_len": len(r["stderr"]), "argv": argv}
         if (env.get("config") or {}).get("debug"):
